@@ -121,6 +121,14 @@ Theorem C20_stream_idempotent_any_sort : forall nonstr hastype srt docs outs, S1
 Proof. exact filter_stream_idem_S1. Qed.
 Print Assumptions C20_stream_idempotent_any_sort.
 
+(* ---- canonical order ----
+   In a formatted node every mapping is in field order (Less, built on the generated order table) and
+   every whitelisted list is ordered by the sort keys of its elements — all nodes, all schemas. *)
+Theorem C20_output_canonical_order : forall nonstr hastype kind api n s p n',
+  fmt_node nonstr hastype isort kind api s p n = Ok n' -> canon_sorted kind api p n' = true.
+Proof. exact fmt_output_sorted. Qed.
+Print Assumptions C20_output_canonical_order.
+
 (* ---- no crash ----
    The formatter never panics: all nodes, all schemas and paths, any sort function.
    (Before /repo commit d64b8e2 this was refuted — sortedSeqContents.Less indexed Content[a+1] of an
